@@ -304,6 +304,9 @@ C11(pre, ev, post, aux) ==
     \cup C("C11.ReleasedOnFailure", \A d \in ResProcs : IsFailOf(ev, d) => ~post.dev[d].held)
     \cup C("C11.KeptThroughMaintenance",
            \A d \in ResProcs : (ScriptOn(ev, "shutdown", d) /\ pre.dev[d].inp # 0) => post.dev[d].held = pre.dev[d].held)
+    \cup C("C11.NothingHeldIntoMaintenanceWithoutAPart",
+           \A d \in ResProcs : (IsStep(ev) /\ ~ev.cancelled /\ ev.kind = "mstart" /\ ev.arg \div 10 = d
+                                 /\ ~pre.dev[d].down /\ pre.dev[d].inp = 0) => ~post.dev[d].held)
     \cup C("C11.NoIdleHolderWhenTimeAdvances",
            Quiescent(post) => \A d \in ResProcs : (~post.dev[d].down /\ post.dev[d].inp = 0) => ~post.dev[d].held)
 
